@@ -2358,7 +2358,7 @@ def check_C18(tier, seed):
     # the same operations at small sizes agree with the model (ties the depth-annotated model functions to the code)
     small = Case('small')
     for name, t in ops:
-        small.eval(t.replace(str(N), '50').replace(str(N - 1), '49').replace(str(N - 5), '45') if 'read-long' not in name else "(length '(1 1 1))")
+        small.eval(t.replace(str(N2), '60').replace(str(N), '50').replace(str(N - 1), '49').replace(str(N - 5), '45') if 'read-long' not in name else "(length '(1 1 1))")
     differential(res, [small])
     res.cov['evaluations'] += total
     res.cov['distinct_nontrivial'] = len(distinct)
